@@ -8,6 +8,7 @@ import (
 	"go/types"
 	"math/big"
 	"sort"
+	"strconv"
 	"strings"
 
 	"golang.org/x/tools/go/ssa"
@@ -716,9 +717,71 @@ func (r *run) appendOp(fr *frame, cur *node, x *ssa.Call, args []Value) Value {
 	}
 }
 
+// leafCells lists the heap suffixes and cell sorts that make up one value of type t in memory (the naming
+// follows store/load).
+func (r *run) leafCells(t types.Type, suffix string, out *[]leafCell) bool {
+	if s := r.scalarSort(t); s != nil {
+		*out = append(*out, leafCell{suffix, s})
+		return true
+	}
+	switch u := t.Underlying().(type) {
+	case *types.Pointer:
+		*out = append(*out, leafCell{suffix, smt.Int})
+	case *types.Slice:
+		*out = append(*out, leafCell{suffix + ".ref", smt.Int}, leafCell{suffix + ".off", r.idx()},
+			leafCell{suffix + ".len", r.idx()}, leafCell{suffix + ".cap", r.idx()})
+	case *types.Interface:
+		*out = append(*out, leafCell{suffix + ".tag", smt.Int}, leafCell{suffix + ".val", smt.Int})
+	case *types.Struct:
+		for i := 0; i < u.NumFields(); i++ {
+			if !r.leafCells(u.Field(i).Type(), suffix+"."+u.Field(i).Name(), out) {
+				return false
+			}
+		}
+	default:
+		return false
+	}
+	return true
+}
+
+type leafCell struct {
+	suffix string
+	sort   *smt.Sort
+}
+
+// appendStruct: append(s, v) for one element of a non-scalar type (pointer, struct, slice, interface):
+// the single-element model of appendOp applied to every memory cell of the element.
 func (r *run) appendStruct(fr *frame, cur *node, x *ssa.Call, dst, src SliceV) Value {
-	r.unsupported("append of struct elements")
-	return nil
+	c := r.C()
+	var cells []leafCell
+	if !r.leafCells(dst.Base.T, "", &cells) {
+		r.unsupported("append of elements of type %s", dst.Base.T)
+	}
+	inPlace := r.slt(dst.Len, dst.Cap)
+	newRef := r.newRef(cur)
+	pos := r.iadd(dst.Off, dst.Len)
+	for _, lc := range cells {
+		heap := dst.Base.Heap + "[]" + lc.suffix
+		h := cur.getPV(heap, r.heapSort(2, lc.sort))
+		srcHeap := src.Base.Heap + "[]" + lc.suffix
+		sh := h
+		if srcHeap != heap {
+			sh = cur.getPV(srcHeap, r.heapSort(2, lc.sort))
+		}
+		elem := c.Select(c.Select(sh, src.Base.Idxs[0]), src.Off)
+		oldArr := c.Select(h, dst.Base.Idxs[0])
+		h1 := c.Store(h, dst.Base.Idxs[0], c.Store(oldArr, pos, elem))
+		h2 := c.Store(h, newRef, c.Store(oldArr, pos, elem))
+		cur.setPV(heap, c.Ite(inPlace, h1, h2))
+	}
+	newCap := c.Fresh("appendcap", r.idx())
+	newLen := r.iadd(dst.Len, r.idxConst(1))
+	r.assume(c.True(), r.sle(newLen, newCap))
+	r.assume(c.True(), r.sle(newCap, r.idxConst(1<<40)))
+	return SliceV{
+		Base: Loc{Heap: dst.Base.Heap, Idxs: []*smt.Term{c.Ite(inPlace, dst.Base.Idxs[0], newRef)}, T: dst.Base.T},
+		Off:  dst.Off, Len: newLen, Cap: c.Ite(inPlace, dst.Cap, newCap),
+	}
 }
 
 func (r *run) appendMany(fr *frame, cur *node, x *ssa.Call, dst, src SliceV) Value {
@@ -1420,6 +1483,19 @@ func (fr *frame) loopEnv(l *loop, at *node, pkg *pkgRef) *env {
 	}
 	en.lazy = func(name string) (TV, bool) {
 		v := fr.r.E.namedValueAt(fr.fn, name, l.header)
+		if v == nil {
+			// name_LN: the variable as named at the head of the enclosing loop N (e.g. rangeindex_L0 is the
+			// range index of loop 0 seen from a loop nested in it)
+			if i := strings.LastIndex(name, "_L"); i > 0 {
+				if n, err := strconv.Atoi(name[i+2:]); err == nil {
+					for _, ol := range fr.li.loops {
+						if ol.ordinal == n && ol != l && ol.blocks[l.header] {
+							v = fr.r.E.namedValueAt(fr.fn, name[:i], ol.header)
+						}
+					}
+				}
+			}
+		}
 		if v == nil {
 			return TV{}, false
 		}
